@@ -18,7 +18,7 @@ Definition ctype_of (b s : str) : ctype := mkT (base_of b) (sign_of s).
 (* tags:
    "oor"  platform vtb vts ctb cts const_left op c      -> N | T | F   (oor_in_context)
    "ccmp" platform vtb vts ctb cts const_left op x c    -> C value of the comparison (res_out)
-   "mask" is_and unsigned1 op c1 c2                     -> N | T | F
+   "mask" is_and unsigned1 const_left op c1 c2                     -> N | T | F
    "opp"  is_not op1 c1 op2 c2                          -> 0 | 1
    "optab" is_not op1 op2                               -> 0 | 1 *)
 Definition run (fields : list str) : list str :=
@@ -44,9 +44,9 @@ Definition run (fields : list str) : list str :=
         end
       else if tag_is tag [109;97;115;107]%N then
         match args with
-        | [ia; u1; o; c1; c2] =>
+        | [ia; u1; cl; o; c1; c2] =>
             match cmp_of o with
-            | Some o' => ob (mask_compare (bool_of_str ia) (bool_of_str u1) o' (zd c1) (zd c2))
+            | Some o' => ob (mask_compare (bool_of_str ia) (bool_of_str u1) (bool_of_str cl) o' (zd c1) (zd c2))
             | None => BAD
             end
         | _ => BAD
